@@ -561,3 +561,21 @@ Print Assumptions C02_oe_world_mint.
 Print Assumptions C02_oe_mint_with_tiny_fee_fails.
 Print Assumptions C02_base_mint_payment.
 Print Assumptions C02_base_world_mint.
+
+(* ---- the NFT metadata mode (off-chain token_uri / on-chain extension) of an open
+   edition does not influence the payment: under any two metadata configurations a call
+   succeeds or fails alike and emits the same messages (hence the same bank messages: fee
+   split, seller payout), so every statement above holds in both modes ---- *)
+From LP Require Import MinterOpenMetaProofs.
+
+Theorem C02_oe_metadata_mode_does_not_touch_payment : forall c c' vr s e fp wv o,
+  match ostep_nft c vr s e fp wv o, ostep_nft c' vr s e fp wv o with
+  | Ok (s1, ms1, mm1), Ok (s2, ms2, mm2) =>
+      s1 = s2 /\ ms1 = ms2 /\ ostep vr s e fp wv o = Ok (s1, ms1) /\
+      map om_id mm1 = map om_id mm2 /\ map om_owner mm1 = map om_owner mm2
+  | Err, Err => ostep vr s e fp wv o = Err
+  | _, _ => False
+  end.
+Proof. exact ostep_nft_mode_independent. Qed.
+
+Print Assumptions C02_oe_metadata_mode_does_not_touch_payment.
